@@ -174,7 +174,27 @@ def parse(text, std, form, **opts):
         fp.SYMBOL_TABLES.clear()
 
 
+def _known_key(v, text, form):
+    """a rejection whose mechanism is a listed finding of the layout checks (decided from the text with the
+    sentinels blanked out)"""
+    import re
+    from .. import layout
+
+    if v is None or not v["key"].endswith("enabled:rejected") or form != "free":
+        return v
+    plain = re.sub(r"(?mi)^(\s*)!\$(?!omp|acc)", lambda m: m.group(1) + "  ", text)
+    k = layout.known_rejection_key(plain)
+    if k:
+        v["key"] = k
+    return v
+
+
 def one(P, std, payload, mons=None):
+    v, text, ns = _one(P, std, payload, mons)
+    return _known_key(v, text, payload["form"]), text, ns
+
+
+def _one(P, std, payload, mons=None):
     r = random.Random(payload["sel_seed"])
     form = payload["form"]
     S = select(P, r)
